@@ -5,6 +5,6 @@ WT=/tmp/ts/$$; mkdir -p /tmp/ts
 git -C /repo worktree add -q --detach $WT HEAD || exit 2
 cd $WT && (git apply $DIFF 2>/dev/null || git apply --3way $DIFF) || { echo "APPLY FAILED"; cd /; git -C /repo worktree remove --force $WT; exit 2; }
 for P in "$@"; do
-  mkdir -p /tmp/zout/ts; cp /verif/known_findings.json /tmp/zout/ts/; /verif/bin/zcheck -p $P -repo $WT -verif /tmp/zout/ts 2>&1 | grep -v "^OK" | cut -c1-${WIDTH:-260}
+  mkdir -p /tmp/zout/ts; cp /verif/known_findings.json /tmp/zout/ts/; ${ZCHECK:-/verif/bin/zcheck} -p $P -repo $WT -verif /tmp/zout/ts 2>&1 | grep -v "^OK" | cut -c1-${WIDTH:-260}
 done
 cd /; git -C /repo worktree remove --force $WT
